@@ -421,6 +421,9 @@ impl<T: Qcow2IoOps> Qcow2Dev<T> {
                     // a concurrent flush may have written the refcounts
                     // without having synced them yet
                     self.call_fsync(0, usize::MAX, 0).await?;
+                    // this slice may also map new data clusters which were
+                    // never zeroed
+                    self.zero_new_data_clusters(&l2_table).await?;
                     self.flush_table(&*l2_table, 0, l2_table.byte_size())
                         .await?;
                     l2_handle.set_dirty(false);
